@@ -47,6 +47,8 @@ type EnvSpec struct {
 	BerlinAt uint64
 	// Number is the block number of the execution (0: block 100).
 	Number uint64
+	// ShareEips hands ExtraEips to the EVM as it is (hosts pass one vm.Config to every EVM they build) instead of a copy.
+	ShareEips bool
 }
 
 // TxSpec is one top-level invocation.
@@ -190,6 +192,9 @@ func NewForkSession(w *World, env EnvSpec, o ForkOpts) *ForkSession {
 	s.Rules = s.Cfg.Rules(bc.BlockNumber, bc.Random != nil, bc.Time)
 	s.Rec = &ForkRecorder{L: s.L, Proxy: s.Proxy, Alloc: o.Alloc}
 	cfg := avm.Config{ExtraEips: append([]int(nil), env.ExtraEips...), NoBaseFee: o.NoBaseFee}
+	if env.ShareEips {
+		cfg.ExtraEips = env.ExtraEips
+	}
 	if o.Debug {
 		switch {
 		case o.OnlyTee:
